@@ -580,7 +580,14 @@ func controlInjection(id string, seed uint64) runner.Result {
 		return stream.MsgSend(&out, payload.Enc{})
 	})
 	soft := r.Intn(2) == 0
-	rg := rig.New(rig.Config{Net: simnet.Opts{Cap: -1, ChunkB: &simnet.ChunkRand{K: 1 + r.Intn(50), State: seed}}, Server: drpcmanager.Options{SoftCancel: soft}, NoConn: true}, handler)
+	// the server's stream option MaximumBufferSize says which marshal buffers a stream keeps; it is no
+	// limit on what the peer may send, in messages or in packets the server does not understand
+	keep := payload.Pick(r, []int{0, 4, 64, 1024})
+	ctlBody := []byte("future-data")
+	if r.Intn(3) == 0 {
+		ctlBody = bytes.Repeat([]byte("future-data-"), 200)
+	}
+	rg := rig.New(rig.Config{Net: simnet.Opts{Cap: -1, ChunkB: &simnet.ChunkRand{K: 1 + r.Intn(50), State: seed}}, Server: drpcmanager.Options{SoftCancel: soft, Stream: drpcstream.Options{MaximumBufferSize: keep}}, NoConn: true}, handler)
 	defer rg.Teardown()
 	raw := rg.Pair.A
 	var back bytes.Buffer
@@ -620,7 +627,7 @@ func controlInjection(id string, seed uint64) runner.Result {
 		}
 		nf := 1 + r.Intn(3)
 		for f := 0; f < nf; f++ {
-			b = refwire.Encode(b, refwire.Frame{Stream: target, Message: mm, Kind: kind, Control: true, Done: f == nf-1, Data: []byte("future-data")})
+			b = refwire.Encode(b, refwire.Frame{Stream: target, Message: mm, Kind: kind, Control: true, Done: f == nf-1, Data: ctlBody})
 		}
 		if target == sid {
 			*mid = mm + 1
@@ -707,7 +714,7 @@ func controlInjection(id string, seed uint64) runner.Result {
 	if rig.IsClosed(rg.ServeOp.Done()) {
 		fails = append(fails, fmt.Sprintf("the server dropped the connection: %v", rg.ServeOp.Err))
 	}
-	hist := fmt.Sprintf("soft=%v session=[%s]", soft, strings.Join(desc, " "))
+	hist := fmt.Sprintf("soft=%v stream-keepbuf=%d control-body=%d session=[%s]", soft, keep, len(ctlBody), strings.Join(desc, " "))
 	if len(fails) > 0 {
 		return runner.Violation(id, "control-injection", hist+"\n"+strings.Join(fails, "\n"))
 	}
